@@ -48,10 +48,19 @@ package netlist
 // the builder only ever holds non-empty ranges
 //@ spec func builderOK(b *ListBuilder[int]) bool = forall(k, 0, len(b.b), le(b.b[k].start, b.b[k].end))
 
+// addr2Ipv6: the 128 bits of the address as netip.As16 gives them (IPv4 as ::ffff:a.b.c.d - the same form for a
+// plain and a mapped IPv4 address, so both fall into the same ranges), big-endian, high half first. ipv6Of is by
+// definition that reading of As16 (the assumption below); that the function computes it, for every address
+// family, by one As16 conversion is verified.
 //@ func addr2Ipv6(addr netip.Addr) (ip Ipv6)
-//@   trusted
+//@   props C07
+//@   assumecall As16: BE64(ret0, 0) == ipv6Of(arg0).h && BE64(ret0, 8) == ipv6Of(arg0).l
+//@   ghost nConv int = 0
+//@   oncall As16: nConv = nConv + 1
 //@   modifies nothing
-//@   ensures ip == ipv6Of(addr)
+//@   callsite As16: [C07:the-address-itself] arg0 == addr
+//@   ensures [C07:one-conversion-whatever-the-family] nConv == 1
+//@   ensures [C07:the-128-bits-of-the-address] ip == ipv6Of(addr)
 
 // Add: a range is accepted exactly when both ends are valid addresses and start <= end; an accepted range is
 // appended as given, a refused one changes nothing.
